@@ -1863,6 +1863,15 @@ def dm14_steps(ctx, rule="R-DM14-STEPS"):
         if any(g == mk_cmp("==", field("_seed_from_key"), ("c", None)) and p for g, p in lits(r.guards())):
             note("client: key requested but no algorithm -> caller woken with an exception", bool(calls(r, lambda v: v[1] == DQ)) and
                  bool(calls(r, lambda v: v[1] == EQ)), f, r.recs[-1].ev.node, "the caller waits for its time-out and gets no error")
+    f = P.func(Q, "_send_operation_complete")
+    done_c = P.resolve_chain(["Command", "OPERATION_COMPLETED"], None)
+    for r in runs(ctx, f):
+        if r.term in ("raise", "exc"):
+            continue
+        snd = calls(r, lambda v: mname(v) == "_send_dm14")
+        cm = [i for i, e in stores(r, "command") if is_const(e.value) and e.value[1] == done_c]
+        note("client: the closing DM14 carries the command 'operation completed'", bool(snd) and bool(cm) and cm[0] < snd[0][0], f, f.node,
+             "the closing frame repeats the read / write command: a conforming server takes it for a new request")
     f = P.func(Q, "_wait_for_data")
     wdm16 = enumv(ctx, "QueryState", "WAIT_FOR_DM16")
     for r in runs(ctx, f):
